@@ -359,6 +359,7 @@ int main(int argc, char **argv)
     }
     /* controller scenarios: short histories in halves, all operators and modes */
     uint64_t s = 0x9E3779B97F4A7C15ull ^ (strtoull(argv[4], 0, 10) * 1000003ull);
+    int const mult = argc > 5 ? atoi(argv[5]) : 1; /* number of seeded scenarios per operator / mode */
     static int const fixed_sets[][4] = {{1, 1, 1, 1}, {2, 2, -2, -2}, {6, 6, 6, 6}, {0, 1, 4, 1}, {3, -3, 3, -3}, {1, 0, 0, 0}};
     static int const fixed_fdbs[][4] = {{0, 0, 0, 0}, {0, 1, 0, -1}, {0, 0, 0, 0}, {0, 0, 0, 0}, {1, 1, -1, -1}, {0, -1, 0, 1}};
     for (int oi = 0; oi < 7; ++oi)
@@ -366,7 +367,7 @@ int main(int argc, char **argv)
         for (int mode = 0; mode < 3; ++mode)
         {
             for (int c = 0; c < 6; ++c) { fuzzy_scenario(oi, mode, fixed_sets[c], fixed_fdbs[c], 4); }
-            for (int c = 0; c < 12; ++c)
+            for (int c = 0; c < 12 * mult; ++c)
             {
                 int st[6], fb[6];
                 for (int i = 0; i < 6; ++i)
@@ -387,7 +388,7 @@ int main(int argc, char **argv)
     for (int mode = 0; mode < 2; ++mode)
     {
         for (int c = 0; c < 6; ++c) { for (int w = 0; w < 3; ++w) { neuro_scenario(mode, w, fixed_sets[c], fixed_fdbs[c], 4); } }
-        for (int c = 0; c < 30; ++c)
+        for (int c = 0; c < 30 * mult; ++c)
         {
             int st[8], fb[8];
             for (int i = 0; i < 8; ++i)
